@@ -1313,4 +1313,179 @@ Qed.
 Lemma SE_init now cfg m : SE m (s_new now cfg m s_file0).
 Proof. unfold SE, s_new. cbn. splits; auto; [intros e b Hx; discriminate|repeat constructor]. Qed.
 
+(* ================= C01 (sender): a success indication repeats a received success Finished PDU ================= *)
+(* [Delivered]: what a Finished PDU saying Retained / Complete stands for (in the system proof: the
+   receiving filestore holds the source file under the destination name, for good) *)
+Variable Delivered : Prop.
+Definition s_success (o : out) : Prop :=
+  match o with OInd (IFinished _ FRetained DComplete _) => True | _ => False end.
+Definition SF (s : sstate) : Prop :=
+  (s_fstat s = FRetained -> s_dc s = DComplete -> Delivered) /\
+  Forall (fun o => s_success o -> s_fstat s = FRetained /\ s_dc s = DComplete) (s_out s).
+Lemma SF_ext (s s' : sstate) : SF s -> s_fstat s' = s_fstat s -> s_dc s' = s_dc s -> s_out s' = s_out s -> SF s'.
+Proof. unfold SF. intros (A & B) E1 E2 E3. rewrite E1, E2, E3. auto. Qed.
+Lemma SF_out o (s s' : sstate) : SF s -> s_fstat s' = s_fstat s -> s_dc s' = s_dc s -> s_out s' = o :: s_out s ->
+  (s_success o -> s_fstat s = FRetained /\ s_dc s = DComplete) -> SF s'.
+Proof. unfold SF. intros (A & B) E1 E2 E3 Ho. rewrite E1, E2, E3. auto. Qed.
+Ltac sf_leaf :=
+  lazymatch goal with
+  | |- SF ?t => let b := strip_s t in
+      first [ eapply (SF_ext b); [ | reflexivity | reflexivity | reflexivity ]
+            | eapply (SF_out _ b); [ | reflexivity | reflexivity | reflexivity | cbn; tauto ] ]
+  end.
+Lemma SF_fin_ind rep resps s : SF s -> SF (semit_ind (IFinished rep (s_fstat s) (s_dc s) resps) s).
+Proof.
+  intros H. eapply (SF_out _ s); [exact H | reflexivity | reflexivity | reflexivity |].
+  unfold s_success. destruct (s_fstat s); try contradiction. destruct (s_dc s); try contradiction. auto.
+Qed.
+Lemma SF_shutdown now s : SF s -> SF (s_shutdown now s).
+Proof. intros H. unfold s_shutdown. sf_leaf. exact H. Qed.
+Lemma SF_abandon now s : SF s -> SF (s_abandon now s).
+Proof. intros H. unfold s_abandon. apply SF_shutdown. sf_leaf. exact H. Qed.
+Lemma SF_suspend now s : SF s -> SF (s_suspend now s).
+Proof. intros H. unfold s_suspend. sf_leaf. exact H. Qed.
+Lemma SF_set_eof_flag b s : SF s -> SF (set_eof_flag b s).
+Proof. intros H. unfold set_eof_flag. destruct (s_eof s) as [[e f]|]; [sf_leaf|]; exact H. Qed.
+Lemma SF_prepare_eof fl s : SF s -> SF (prepare_eof fl s).
+Proof.
+  intros H. unfold Send.prepare_eof, Send.get_checksum.
+  destruct (s_cksum s); cbn [fst snd]; [sf_leaf; exact H|].
+  destruct (s_is_file_transfer s); cbn [fst snd]; [|sf_leaf; exact H].
+  destruct (md_ck (s_meta s)); sf_leaf; exact H.
+Qed.
+Lemma SF_cancel_ now c s : SF s -> SF (s_cancel_ now c s).
+Proof. intros H. unfold Send.s_cancel_. apply SF_prepare_eof. sf_leaf. exact H. Qed.
+Lemma SF_handle_fault now c s : SF s -> SF (s_handle_fault now c s).
+Proof.
+  intros H. unfold Send.s_handle_fault.
+  assert (H1 : SF (semit_ind (IFault c (s_sent (set_s_cond c s))) (set_s_cond c s))) by (sf_leaf; exact H).
+  destruct (handler _ c); [apply SF_cancel_ | apply SF_suspend | | apply SF_abandon]; exact H1.
+Qed.
+Lemma SF_ht_ack_eof now s : SF s -> SF (ht_ack_eof cksum now s).
+Proof.
+  intros H. unfold ht_ack_eof, c_timeout_occurred. cbn [fst snd].
+  set (s3 := supd_ack (fun _ => c_update now (t_ack (s_timer s))) s).
+  assert (H3 : SF s3) by (unfold s3; sf_leaf; exact H). clearbody s3.
+  destruct (c_occurred (c_update now (t_ack (s_timer s)))); [|exact H3].
+  destruct (c_count (c_update now (t_ack (s_timer s))) =? c_max (c_update now (t_ack (s_timer s))));
+    [apply SF_handle_fault | apply SF_set_eof_flag]; exact H3.
+Qed.
+Lemma SF_handle_timeout now s : SF s -> SF (s_handle_timeout now s).
+Proof.
+  intros H. unfold Send.s_handle_timeout, c_limit_reached.
+  destruct (s_phase s) eqn:Ep; try exact H; cbn [fst snd].
+  - set (s1 := supd_inact (fun _ => c_update now (t_inact (s_timer s))) s).
+    assert (H1 : SF s1) by (unfold s1; sf_leaf; exact H). clearbody s1.
+    destruct (c_count (c_update now (t_inact (s_timer s))) =? c_max (c_update now (t_inact (s_timer s)))); cbn [andb].
+    + pose proof (SF_handle_fault now InactivityDetected s1 H1) as H2.
+      destruct (negb (sphase_eqb (s_phase (s_handle_fault now InactivityDetected s1)) SendEof)
+                || negb (tstate_eqb (s_state (s_handle_fault now InactivityDetected s1)) TActive));
+        [exact H2|apply SF_ht_ack_eof; exact H2].
+    + apply SF_ht_ack_eof; exact H1.
+  - set (s1 := supd_inact (fun _ => c_update now (t_inact (s_timer s))) s).
+    assert (H1 : SF s1) by (unfold s1; sf_leaf; exact H). clearbody s1.
+    destruct (c_count (c_update now (t_inact (s_timer s))) =? c_max (c_update now (t_inact (s_timer s))));
+      [apply SF_abandon; exact H1|].
+    unfold c_timeout_occurred. cbn [fst snd].
+    set (s3 := supd_ack (fun _ => c_update now (t_ack (s_timer s1))) s1).
+    assert (H3 : SF s3) by (unfold s3; sf_leaf; exact H1). clearbody s3.
+    destruct (c_occurred (c_update now (t_ack (s_timer s1)))); [|exact H3].
+    destruct (c_count (c_update now (t_ack (s_timer s1))) =? c_max (c_update now (t_ack (s_timer s1))));
+      [apply SF_abandon | apply SF_set_eof_flag]; exact H3.
+Qed.
+(* receiving a Finished PDU: the sender adopts its file status and delivery code *)
+Lemma SF_adopt fn (s s' : sstate) : SF s -> (fin_fs fn = FRetained -> fin_dc fn = DComplete -> Delivered) ->
+  s_fstat s' = fin_fs fn -> s_dc s' = fin_dc fn ->
+  Forall (fun o => ~ s_success o) (s_out s) -> s_out s' = s_out s -> SF s'.
+Proof.
+  intros (A & B) Hd E1 E2 Hn E3. unfold SF. rewrite E1, E2, E3. split; [exact Hd|].
+  eapply Forall_impl; [|exact Hn]. intros o Ho Hs. contradiction.
+Qed.
+Lemma SF_process_pdu now p s : SF s -> s_out s = [] ->
+  (forall fn, p = PFinished fn -> fin_fs fn = FRetained -> fin_dc fn = DComplete -> Delivered) ->
+  SF (fst (s_process_pdu now p s)).
+Proof.
+  intros H Hout Hd. unfold Send.s_process_pdu.
+  set (s0 := if sphase_eqb (s_phase s) SendEof && negb (ssuspended s) then supd_inact (c_reset now) s else s).
+  assert (H0 : SF s0) by (unfold s0; destruct (_ && _); [sf_leaf|]; exact H).
+  assert (Ho0 : s_out s0 = []) by (unfold s0; destruct (_ && _); exact Hout).
+  clearbody s0. clear H.
+  destruct (cfg_mode (s_cfg s0)); destruct p; cbn [fst]; try exact H0.
+  - (* Finished, acknowledged *)
+    match goal with |- SF (semit_ind (IFinished ?rep ?a ?b ?r) ?x) =>
+      change a with (s_fstat x); change b with (s_dc x); apply SF_fin_ind end.
+    eapply (SF_adopt f s0); [exact H0 | apply Hd; reflexivity | reflexivity | reflexivity | rewrite Ho0; constructor | reflexivity].
+  - destruct (ack_dir a); cbn [fst]; exact H0.
+  - (* Finished, unacknowledged with closure *)
+    destruct (md_closure (s_meta s0)); cbn [fst]; [|exact H0]. apply SF_shutdown.
+    match goal with |- SF (semit_ind (IFinished ?rep ?a ?b ?r) ?x) =>
+      change a with (s_fstat x); change b with (s_dc x); apply SF_fin_ind end.
+    eapply (SF_adopt f s0); [exact H0 | apply Hd; reflexivity | reflexivity | reflexivity | rewrite Ho0; constructor | reflexivity].
+Qed.
+Lemma SF_send_metadata s : SF s -> SF (send_metadata s).
+Proof. intros H. unfold Send.send_metadata. sf_leaf. exact H. Qed.
+Lemma SF_send_file_segment off len s : SF s -> SF (send_file_segment off len s).
+Proof. intros H. unfold Send.send_file_segment. sf_leaf. exact H. Qed.
+Lemma SF_send_missing_data now s : SF s -> SF (fst (send_missing_data now s)).
+Proof.
+  intros H. unfold Send.send_missing_data. destruct (s_naks s) as [|[a b] t]; [exact H|].
+  assert (H1 : SF (supd_inact (c_restart now) (set_s_naks t s))) by (sf_leaf; exact H).
+  destruct (65535 <? b - a); cbn [fst]; [exact H1|].
+  destruct ((a =? 0) && (b - a =? 0)); cbn [fst]; [apply SF_send_metadata|apply SF_send_file_segment]; exact H1.
+Qed.
+Lemma SF_send_eof now s : SF s -> SF (send_eof now s).
+Proof.
+  intros H. unfold Send.send_eof. destruct (s_eof s) as [[e [|]]|]; try exact H.
+  apply SF_set_eof_flag. sf_leaf. exact H.
+Qed.
+Lemma SF_send_pdu now s : SF s -> SF (fst (s_send_pdu now s)).
+Proof.
+  intros H. unfold Send.s_send_pdu.
+  destruct (is_some (s_prompt s)); cbn [fst].
+  { unfold Send.send_prompt. destruct (s_prompt s); [sf_leaf|]; exact H. }
+  destruct (s_phase s) eqn:Ep.
+  - pose proof (SF_send_metadata s H) as H1. destruct (_ && _); cbn [fst].
+    + sf_leaf. exact H1.
+    + unfold enter_send_eof. eapply (SF_ext (prepare_eof None (send_metadata s))); [apply SF_prepare_eof; exact H1 | reflexivity ..].
+  - assert (H1 : SF (fst (if negb (is_nil (s_naks s)) then send_missing_data now s
+                               else (send_file_segment (s_pos s) (cfg_seg (s_cfg s)) s, ROk)))).
+    { destruct (negb _); [apply SF_send_missing_data; exact H|]. cbn [fst]. apply SF_send_file_segment. exact H. }
+    destruct (if negb (is_nil (s_naks s)) then _ else _) as [s1 r]. cbn [fst] in H1.
+    destruct r; cbn [fst]; try exact H1.
+    destruct (_ =? _); cbn [fst]; [|exact H1].
+    unfold enter_send_eof. eapply (SF_ext (prepare_eof None s1)); [apply SF_prepare_eof; exact H1 | reflexivity ..].
+  - destruct (negb _); [apply SF_send_missing_data; exact H|].
+    pose proof (SF_send_eof now s H) as H1.
+    set (s1 := send_eof now s) in *. clearbody s1.
+    assert (H2 : SF (if s_eof_ind s1 then set_s_eof_ind false (semit_ind IEoFSent s1) else s1)).
+    { destruct (s_eof_ind s1); [sf_leaf|]; exact H1. }
+    remember (if s_eof_ind s1 then _ else s1) as s2 eqn:E2. clear E2 H1.
+    destruct (cfg_mode (s_cfg s2)); cbn [fst]; [exact H2|].
+    destruct (md_closure (s_meta s2)); cbn [fst]; [exact H2|].
+    apply SF_shutdown. apply SF_fin_ind. exact H2.
+  - cbn [fst]. apply SF_send_eof. exact H.
+  - cbn [fst]. unfold Send.send_ack. destruct (s_ack s); [apply SF_shutdown; sf_leaf|]; exact H.
+Qed.
+Theorem SF_sstep now o s : SF s ->
+  (forall fn, o = SPdu (PFinished fn) -> fin_fs fn = FRetained -> fin_dc fn = DComplete -> Delivered) ->
+  SF (fst (sstep now o s)).
+Proof.
+  intros H Hd. unfold Send.sstep.
+  assert (H0 : SF (set_s_out [] s)) by (destruct H as (A & B); unfold SF; cbn; split; [exact A|constructor]).
+  assert (Ho : s_out (set_s_out [] s) = []) by reflexivity.
+  remember (set_s_out [] s) as s0 eqn:E0. clear E0 H.
+  destruct o; cbn [fst].
+  - apply SF_process_pdu; [exact H0|exact Ho|]. intros fn E. apply Hd. rewrite E. reflexivity.
+  - destruct (s_has_pdu_to_send _); [apply SF_send_pdu|]; exact H0.
+  - destruct (s_until_timeout now _) as [[|?]|]; [apply SF_handle_timeout| |]; exact H0.
+  - apply SF_cancel_; exact H0.
+  - apply SF_suspend; exact H0.
+  - unfold s_resume. destruct (s_phase _); sf_leaf; exact H0.
+  - unfold s_send_report. sf_leaf. exact H0.
+  - apply SF_shutdown; exact H0.
+  - sf_leaf. exact H0.
+Qed.
+Lemma SF_init now cfg m file : SF (s_new now cfg m file).
+Proof. unfold SF, s_new. cbn. split; [intros E; discriminate|]. constructor; [cbn; tauto|constructor]. Qed.
+
 End SendP.
